@@ -259,7 +259,14 @@ func PeekTag(reader Asn1Reader, offset int) (*asn1crypto.Tag, error) {
 	return &tag, nil
 }
 
+// maxExpectedBytes is the largest amount of data read in one piece: the biggest TLV accepted by
+// ReadStruct (80 KiB of content) plus a maximal tag/length header.
+const maxExpectedBytes = 81920 + 17
+
 func ReadExpectedBytes(reader Asn1Reader, byteSize int) ([]byte, error) {
+	if byteSize < 0 || byteSize > maxExpectedBytes {
+		return nil, fmt.Errorf("invalid length %d, expected a value between 0 and %d", byteSize, maxExpectedBytes)
+	}
 	readBytes := make([]byte, byteSize)
 	err := ReadExpectedBytesRecursive(reader, byteSize, &readBytes, 0)
 	if err != nil {
